@@ -461,3 +461,46 @@ def reduction_helper(prog, path):
         if not (bounded and congruent):
             return False
     return True
+
+
+def pi_constants(ctx, rule, bodies, key_prefix='constants'):
+    """Every floating constant of the given bodies (and their closures) that lies within 1e-3 (relative) of pi/2, pi or 2*pi
+    must be that value to the last bit of an f64 computation (|c - k*pi| <= 4 ulp): a truncated literal such as 6.2831 or 3.14159
+    shifts every result by an amount that grows with the number of turns."""
+    import math
+    prog = ctx.prog
+    targets = {'pi/2': math.pi / 2, 'pi': math.pi, '2*pi': 2 * math.pi, 'pi/180': math.pi / 180, '180/pi': 180 / math.pi}
+    seen = 0
+    todo = []
+    for b in bodies:
+        todo.append(b)
+        todo += closure_bodies(prog, b.path)
+    for b in todo:
+        vals = set()
+        for blk in b.blocks:
+            ops = []
+            for st in blk['stmts']:
+                rv = st['rv']
+                for k in ('op', 'a', 'b'):
+                    if isinstance(rv.get(k), dict):
+                        ops.append(rv[k])
+                ops += [o for o in rv.get('ops', []) if isinstance(o, dict)]
+            t = blk['term']
+            ops += [a for a in t.get('args', []) if isinstance(a, dict)]
+            if isinstance(t.get('discr'), dict):
+                ops.append(t['discr'])
+            for o in ops:
+                if o.get('k') == 'const' and 'f' in o:
+                    try:
+                        vals.add((float(o['f']), o.get('name') or ''))
+                    except ValueError:
+                        pass
+        for v, name in sorted(vals):
+            for tn, tv in targets.items():
+                if abs(abs(v) - tv) <= 1e-3 * tv:
+                    seen += 1
+                    exact = abs(abs(v) - tv) <= 4 * math.ulp(tv)
+                    ctx.check(exact, rule, '%s/%s/%s' % (key_prefix, b.path.split('::')[-1], name.split('::')[-1] or tn), b.where(0), b.path,
+                              'the constant %r%s is close to %s = %r but not equal to it: results drift by %.1e per use' % (v, ' (%s)' % name if name else '', tn, tv, abs(abs(v) - tv)),
+                              found=repr(v), expected=repr(tv), detail='%s exact' % tn)
+    return seen
